@@ -189,8 +189,18 @@ def _jsonable(v):
     return v
 
 
+def signature(bad):
+    """how a case fails: by raising, or with a wrong value (kept while shrinking, so that
+    different defects of the same method stay different)"""
+    if bad is None:
+        return None
+    o = bad["observed"]
+    return o["raises"] if isinstance(o, dict) and "raises" in o else "value"
+
+
 def shrink(kind: str, t: str, a: int, b: int):
-    """delete characters while the case keeps failing"""
+    """delete characters while the case keeps failing in the same way"""
+    sig = signature(check_case(kind, t, a, b))
     changed = True
     while changed:
         changed = False
@@ -200,7 +210,7 @@ def shrink(kind: str, t: str, a: int, b: int):
             b2 = b - (1 if i < b else 0)
             if kind in ("line_col", "line_of"):
                 b2 = a2
-            if check_case(kind, t2, a2, b2) is not None:
+            if signature(check_case(kind, t2, a2, b2)) == sig:
                 t, a, b, changed = t2, a2, b2, True
                 break
     return t, a, b
@@ -399,13 +409,13 @@ def run(out: Outcome) -> None:
         samples += [{"request": x, "impl": y} for x, y in list(zip(r, a))[-6:]]
 
     # ---- verdict (DESIGN §5)
-    by_kind: dict[str, tuple] = {}
-    for c in sorted(concrete, key=lambda c: (len(c[1]), c[1], c[2], c[3])):
-        by_kind.setdefault(c[0], c)
+    by_kind: dict[tuple, tuple] = {}
+    for c in sorted(set(concrete), key=lambda c: (len(c[1]), c[1], c[2], c[3])):
+        sig = signature(check_case(*c))
+        if sig is not None:
+            by_kind.setdefault((c[0], sig), c)
     reported = set()
-    for kind, (_, t, a, b) in sorted(by_kind.items()):
-        if check_case(kind, t, a, b) is None:
-            continue
+    for (kind, _), (_, t, a, b) in sorted(by_kind.items()):
         t2, a2, b2 = shrink(kind, t, a, b)
         if (kind, t2, a2, b2) in reported:
             continue
